@@ -296,6 +296,9 @@ func (env *specEnv) eval(ex ast.Expr) Value {
 		case token.SUB:
 			switch repOf(t) {
 			case RInt:
+				if bits, signed := typeBits(t); bits == 64 && signed {
+					return c.Neg(v.(*Term))
+				}
 				return e.wrap1(c.Neg(v.(*Term)), t)
 			case RByte:
 				return c.BVBin("bvsub", c.BVC(0), v.(*Term))
@@ -317,10 +320,11 @@ func (env *specEnv) eval(ex ast.Expr) Value {
 		return PoisonV{"spec unary " + n.Op.String()}
 	case *ast.BinaryExpr:
 		if n.Op == token.LAND || n.Op == token.LOR {
-			a, ok1 := env.eval(n.X).(*Term)
-			b, ok2 := env.eval(n.Y).(*Term)
+			av, bv := env.eval(n.X), env.eval(n.Y)
+			a, ok1 := av.(*Term)
+			b, ok2 := bv.(*Term)
 			if !ok1 || !ok2 {
-				return PoisonV{"spec boolean operand"}
+				return poisonOf("boolean operand", av, bv)
 			}
 			if n.Op == token.LAND {
 				return c.And(a, b)
@@ -344,7 +348,9 @@ func (env *specEnv) eval(ex ast.Expr) Value {
 			}
 		}
 		e.dry++ // division/shift obligations are not raised for specifications
+		e.specMath++
 		r := x.binop(n.Op, a, b, xt, yt, env.state(), token.NoPos)
+		e.specMath--
 		e.dry--
 		return r
 	case *ast.SelectorExpr:
@@ -415,6 +421,15 @@ func (env *specEnv) eval(ex ast.Expr) Value {
 	return PoisonV{fmt.Sprintf("spec expression %T", ex)}
 }
 
+func poisonOf(what string, vs ...Value) Value {
+	for _, v := range vs {
+		if p, ok := v.(PoisonV); ok {
+			return PoisonV{what + ": " + p.Why}
+		}
+	}
+	return PoisonV{what + fmt.Sprintf(" (%T)", vs[0])}
+}
+
 func isUntyped(t types.Type) bool {
 	if t == nil {
 		return false
@@ -477,6 +492,9 @@ func (env *specEnv) evalIdent(id *ast.Ident) Value {
 					}
 				}
 				if v, ok := st.cells[cell]; ok {
+					return v
+				}
+				if v, ok := env.oldv[o]; ok {
 					return v
 				}
 				if v, ok := env.cur.cells[cell]; ok {
@@ -627,12 +645,31 @@ func (env *specEnv) addr(ex ast.Expr) (PtrV, error) {
 			return x.elemPtr(b.Arr, c.Add(b.Off, idx), sl.Elem()), nil
 		}
 		return PtrV{}, fmt.Errorf("address of index into %s", bt)
-	case *ast.StarExpr:
-		p, ok := env.eval(n.X).(PtrV)
-		if !ok {
-			return PtrV{}, fmt.Errorf("deref of non-pointer")
+	case *ast.CallExpr:
+		if id, ok := n.Fun.(*ast.Ident); ok && id.Name == "pointee_" {
+			return env.addr(&ast.StarExpr{X: n.Args[0]})
 		}
-		return p, nil
+		if p, ok := env.eval(n).(PtrV); ok {
+			return p, nil
+		}
+		return PtrV{}, fmt.Errorf("call is not an lvalue")
+	case *ast.StarExpr:
+		switch v := env.eval(n.X).(type) {
+		case PtrV:
+			return v, nil
+		case IfaceV:
+			// pointee of a pointer boxed in an interface
+			if v.Ptr != nil {
+				return *v.Ptr, nil
+			}
+			if v.Tag.Op == "int" {
+				if T, ok := e.tagTypes[int(v.Tag.IVal.Int64())]; ok && repOf(T) == RPtr {
+					return e.ptrFromRef(v.Box, T), nil
+				}
+			}
+			return PtrV{}, fmt.Errorf("dynamic type of interface is not known here")
+		}
+		return PtrV{}, fmt.Errorf("deref of non-pointer")
 	}
 	return PtrV{}, fmt.Errorf("not an lvalue: %T", ex)
 }
@@ -704,17 +741,19 @@ func (env *specEnv) evalCall(n *ast.CallExpr) Value {
 		env.inOld = saved
 		return v
 	case "implies_":
-		a, ok1 := env.eval(n.Args[0]).(*Term)
-		b, ok2 := env.eval(n.Args[1]).(*Term)
+		av, bv := env.eval(n.Args[0]), env.eval(n.Args[1])
+		a, ok1 := av.(*Term)
+		b, ok2 := bv.(*Term)
 		if !ok1 || !ok2 {
-			return PoisonV{"implies operand"}
+			return poisonOf("implies operand", av, bv)
 		}
 		return c.Implies(a, b)
 	case "iff_":
-		a, ok1 := env.eval(n.Args[0]).(*Term)
-		b, ok2 := env.eval(n.Args[1]).(*Term)
+		av, bv := env.eval(n.Args[0]), env.eval(n.Args[1])
+		a, ok1 := av.(*Term)
+		b, ok2 := bv.(*Term)
 		if !ok1 || !ok2 {
-			return PoisonV{"iff operand"}
+			return poisonOf("iff operand", av, bv)
 		}
 		return c.Eq(a, b)
 	case "ite_":
@@ -778,7 +817,7 @@ func (env *specEnv) evalCall(n *ast.CallExpr) Value {
 		if env.old != nil {
 			base = env.old.next
 		}
-		return c.Le(base, r)
+		return c.Le(base, e.rootOf(r))
 	case "samearr_":
 		a, ok1 := env.eval(n.Args[0]).(SliceV)
 		b, ok2 := env.eval(n.Args[1]).(SliceV)
@@ -800,6 +839,28 @@ func (env *specEnv) evalCall(n *ast.CallExpr) Value {
 		}
 		T := env.info.Instances[n.Fun.(*ast.IndexExpr).X.(*ast.Ident)].TypeArgs.At(0)
 		return x.unbox(env.state(), iv, T)
+	case "ref_":
+		switch v := env.eval(n.Args[0]).(type) {
+		case PtrV:
+			r, err := e.refOfPtr(v)
+			if err != nil {
+				return PoisonV{err.Error()}
+			}
+			return r
+		case IfaceV:
+			return v.Box
+		case *Term:
+			return v
+		case SliceV:
+			return v.Arr
+		}
+		return PoisonV{"ref_ argument"}
+	case "alloc_":
+		base := c.IntC(0)
+		if env.old != nil {
+			base = env.old.alloc
+		}
+		return c.Sub(env.state().alloc, base)
 	case "rangeidx_":
 		if env.loop != nil {
 			if cell, _ := x.rangeIndexOf(env.loop, env.state()); cell != nil {
@@ -922,7 +983,7 @@ func (env *specEnv) callSpecOrPure(fo *types.Func, args []Value, n *ast.CallExpr
 		key = fo.Pkg().Path() + "." + fo.Name()
 	}
 	if sf := e.lookupSpecFn(fo, key); sf != nil {
-		if sf.decl != nil && sf.decl.Body != nil {
+		if sf.decl != nil && sf.decl.Body != nil && (len(sf.blk.Of("body")) > 0 || strings.Contains(sf.blk.Header, "{")) {
 			// macro expansion of "return <expr>"
 			sub := &specEnv{x: x, cur: env.cur, old: env.old, inOld: env.inOld, vars: map[types.Object]Value{}, oldv: map[types.Object]Value{}, info: sf.info, labels: env.labels}
 			for i, p := range sf.params {
@@ -945,7 +1006,7 @@ func (env *specEnv) callSpecOrPure(fo *types.Func, args []Value, n *ast.CallExpr
 		rt := sig.Results().At(0).Type()
 		var ts []*Term
 		for i, a := range args {
-			fl, err := e.flatten(a, sig.Params().At(i).Type(), env.state())
+			fl, err := e.flattenArg(a, sig.Params().At(i).Type(), env.state())
 			if err != nil {
 				return PoisonV{"spec argument: " + err.Error()}
 			}
@@ -1029,6 +1090,30 @@ func (e *Engine) flatten(v Value, t types.Type, s *State) ([]*Term, error) {
 	return nil, fmt.Errorf("cannot flatten %T", v)
 }
 
+// flattenArg flattens an argument of a spec function; a parameter of
+// interface type identifies its argument by reference only, so that the same
+// object gives the same term whether it is passed as a pointer or boxed.
+func (e *Engine) flattenArg(v Value, pt types.Type, s *State) ([]*Term, error) {
+	if repOf(pt) == RIface {
+		switch u := v.(type) {
+		case IfaceV:
+			if u.Ptr != nil {
+				return nil, fmt.Errorf("pointer to a local passed to a spec function")
+			}
+			return []*Term{u.Box}, nil
+		case PtrV:
+			r, err := e.refOfPtr(u)
+			if err != nil {
+				return nil, err
+			}
+			return []*Term{r}, nil
+		case *Term:
+			return []*Term{u}, nil
+		}
+	}
+	return e.flatten(v, pt, s)
+}
+
 func (e *Engine) lookupSpecFn(fo *types.Func, key string) *specFn {
 	if sf, ok := e.specFnCache[key]; ok {
 		return sf
@@ -1072,7 +1157,7 @@ type calleeScope struct {
 }
 
 func (e *Engine) calleeScope(blk *Block, fn *ssa.Function, key string) (*calleeScope, error) {
-	if fn != nil && fn.Syntax() != nil {
+	if fn != nil && fn.Syntax() != nil && !blk.Extern && e.P.PkgOf(fn) != nil {
 		cs := &calleeScope{pkg: e.P.PkgOf(fn).Types, pos: scopePos(fn, token.NoPos), sig: fn.Signature}
 		for _, p := range fn.Params {
 			cs.params = append(cs.params, p.Object())
@@ -1132,6 +1217,9 @@ func (x *exec) checkPre(s *State, blk *Block, fn *ssa.Function, args []Value, po
 }
 
 func calleeShort(key string) string {
+	if k := strings.Index(key, "|"); k >= 0 {
+		key = key[k+1:]
+	}
 	key = strings.TrimPrefix(key, ModPath+"/")
 	return key
 }
@@ -1172,8 +1260,15 @@ func (x *exec) applyContract(s *State, blk *Block, fn *ssa.Function, args []Valu
 				s.alloc = na
 			}
 		}
-	} else if blk.Extern && !blk.Has("pure") {
-		s.alloc = c.Fresh("alloc.ext", Int)
+		x.noteAlloc(s, pos, "call:"+calleeShort(key))
+	} else if !blk.Has("pure") && !blk.Has("noalloc") {
+		// no bound known: its own obligation fails; later sites are judged
+		// without this site's contribution so that it does not mask them
+		na := c.Fresh("alloc.unbounded", Int)
+		na.AddFact(c.Le(old.alloc, na))
+		s.alloc = na
+		x.noteAlloc(s, pos, "call:"+calleeShort(key))
+		s.alloc = old.alloc
 	}
 	if len(blk.Of("fresh")) > 0 || true {
 		// results may be freshly allocated references
@@ -1269,7 +1364,7 @@ func (x *exec) havocLvalue(s, old *State, env *specEnv, ex ast.Expr, wild bool, 
 					rt := fo.Type().(*types.Signature).Results().At(0).Type()
 					ls := e.leavesOf(rt)
 					a := env.eval(call.Args[0])
-					ts, err := e.flatten(a, fo.Type().(*types.Signature).Params().At(0).Type(), old)
+					ts, err := e.flattenArg(a, fo.Type().(*types.Signature).Params().At(0).Type(), old)
 					if err != nil || len(ts) != 1 || len(ls) != 1 {
 						x.bindFail(cl, fmt.Errorf("bad ghost modifies"))
 						return
